@@ -43,6 +43,8 @@ type worker struct {
 	syncN     int
 	raw       []byte
 	keepRaw   bool
+	nDSR      int
+	badCPR    int
 	scratch   string
 	rcFiles   map[string]string
 	ta        []byte // pending type-ahead delivered with the next CPR
@@ -163,6 +165,10 @@ func (w *worker) send(tr *Trace) {
 func (w *worker) hookTerm() {
 	w.term.OnDSR = func(row, col int) {
 		reply := []byte(fmt.Sprintf("\x1b[%d;%dR", row, col))
+		w.nDSR++
+		if w.badCPR > 0 && w.nDSR == w.badCPR {
+			reply = []byte("\x1b[99999999999999999999;1R")
+		}
 		if w.script != nil {
 			w.scriptDSR(reply)
 			return
@@ -524,6 +530,7 @@ func (w *worker) runJob(job *Job) (tr *Trace) {
 	w.hookTerm()
 	w.raw = w.raw[:0]
 	w.keepRaw = job.Want.Raw
+	w.nDSR, w.badCPR = 0, cfg.BadCPR
 	w.ta = nil
 	w.mu.Unlock()
 
@@ -716,6 +723,18 @@ func (w *worker) runJob(job *Job) (tr *Trace) {
 	w.mu.Unlock()
 	if job.Script != nil && len(job.Calls) == 0 {
 		job.Calls = [][]Answer{nil}
+	}
+	if cfg.PreOutput != "" {
+		os.Stdout.WriteString(cfg.PreOutput)
+		w.syncTerm()
+	}
+	for _, answers := range cfg.PriorCalls {
+		run.answers, run.idx, run.waits, run.nwaits, run.log, run.eofReads, run.pending = answers, 0, nil, 0, nil, 0, nil
+		run.want = Want{}
+		if pc := w.runCall(run); pc.Outcome != "returned" {
+			tr.Err = fmt.Sprintf("prior call did not return: %s %s", pc.Outcome, pc.Err)
+			return
+		}
 	}
 	var ttyBase *unix.Termios
 	if len(cfg.TtyAlt) > 0 {
